@@ -10,26 +10,46 @@ Python's grammar (PyWF / pyabs) is compared with CPython itself (ast.parse) on
 random Python trees and on every emitted code string.  Literals: emit_text /
 py_string_literal / py_decint against the implementation and CPython.
 
+Evaluation correspondence (theorem C02_eval): on the same (formula, environment)
+pairs as the oracle, the extracted Model/FormulaEval.v evaluates the Python tree of
+the emitted code the way the compiled lambda does (pyeval: the OperatorWrapper
+rewrites to excel_operator_operand_fixup calls, Model/Arrays.v op_fixup) and the
+Excel tree by Excel's reading (xleval); cell values come from the environment, the
+meaning of a library function at an argument tuple is asked from the
+implementation's own function when the model first needs it (the theorem
+quantifies over every function meaning).  py_value is compared with
+ExcelFormula's eval context, xl_value with the reference evaluator, and for trees
+in the theorem's fragment (evalb) both model values must be equal.  Number
+literals with decimals / exponents: py_number against CPython, xl_numval against
+decimal.Decimal.
+
 Oracle (independent of the model): a reference evaluator evaluates the intended
 tree (Excel's grammar) with the implementation's OWN operator function and
 library functions applied per node, so that only grouping and literals are
 judged, against ExcelFormula.build_eval_context()(ExcelFormula(text)) on
 environments of cell values."""
 import ast
+import decimal
+import fractions
 import importlib
 import itertools
 import logging
 import warnings
 
-from harness.common import ensure_impl_on_path, known_predicate
+from harness.common import (EXN_NAMES, Unencodable, canon, dec_res, dec_val, enc_val, ensure_impl_on_path,
+                            known_predicate, same)
 
-GEN_MODULES = ['excelformula']
+GEN_MODULES = ['excelformula', 'excelutil']
 EXTRA_TARGETS = ('Proofs/C02.vo', 'Refuted/C02_literals.vo')
 ASSUMPTIONS = [
     "the openpyxl tokenizer and Tokenizer._items are not modelled: the model parses the token string "
     "flat(c) of a concrete tree, the implementation the rendered text (tie: exact RPN / code strings)",
     "that pyflat(t) parses to pyabs(t) for PyWF t (uniqueness of Python's parse) is checked against "
     "CPython's ast.parse, not proved",
+    "C02_eval: Model/FormulaEval.v pyeval is a hand transcription of what the code object built by "
+    "_compile_python_ast computes (OperatorWrapper: BinOp/Compare/UnaryOp -> excel_operator_operand_fixup calls, "
+    "Python's evaluation order, literal decoding); tie: py_value = ExcelFormula's eval context on every "
+    "(formula, environment) pair of the oracle stream",
 ]
 
 OPS = ['=', '<>', '<', '<=', '>', '>=', '&', '+', '-', '*', '/', '^', ' ', ':', ',']
@@ -47,6 +67,15 @@ ERRORS = ['#DIV/0!', '#N/A', '#VALUE!', '#REF!', '#NAME?', '#NUM!', '#NULL!']
 def _kp_leading_zero(case):
     """A number with superfluous leading zeros (007) is not a Python literal."""
     return case.get('clause') == 'number-leading-zero'
+
+
+@known_predicate('C02-number-exponent-sign')
+def _kp_exponent_sign(case):
+    """openpyxl's tokenizer keeps the sign of an exponent inside the number only after a mantissa of the form
+    d or d.ddd with d in 1-9 (SN_RE): =12.5E-1, =0.5E+1, =.15e-19, =750.e+2 are split at the sign into a name and a
+    number and evaluate to #NAME? (Excel: 1.25, 5, 1.5E-20, 75000).  The witnesses are only put into the stream
+    once the finding is listed in known_findings.json."""
+    return case.get('clause') == 'number-exponent-sign'
 
 
 @known_predicate('C02-logical-lowercase')
@@ -338,6 +367,99 @@ class Impl:
             return f(*[None if a is None else self.ref(a, env) for a in e[2]])
         raise ValueError(e)
 
+    # ---- exactness of the implementation's float arithmetic on this case (the model computes in Q)
+    def ref_exact(self, e, env):
+        """True when every + - * / ^ node of the intended tree, evaluated with the implementation's fixup, yields
+        exactly the rational result of its (coerced) operands: then model and implementation must agree bit for
+        bit; otherwise IEEE rounding happened somewhere and numbers are compared with a tolerance"""
+        from pycel.excelutil import coerce_to_number
+        F = fractions.Fraction
+        flag = [True]
+
+        def numeric(x):
+            return isinstance(x, (int, float)) and not (isinstance(x, float) and (x != x or x in (float('inf'), float('-inf'))))
+
+        def chk(op, a, b, r):
+            try:
+                a0, b0 = a, b
+                a = coerce_to_number(a, convert_all=True)
+                b = coerce_to_number(b, convert_all=True)
+                for x0, x in ((a0, a), (b0, b)):      # text -> float conversion rounds too ("7.252")
+                    if isinstance(x0, str) and numeric(x) and F(decimal.Decimal(x0.strip())) != F(x):
+                        flag[0] = False
+            except Exception:      # noqa: BLE001
+                return
+            if not (numeric(a) and numeric(b)) or isinstance(r, str):
+                return
+            if not numeric(r):
+                flag[0] = False
+                return
+            try:
+                if op == 'Add':
+                    x = F(a) + F(b)
+                elif op == 'Sub':
+                    x = F(a) - F(b)
+                elif op == 'Mult':
+                    x = F(a) * F(b)
+                elif op == 'Div':
+                    x = F(a) / F(b)
+                elif op == 'Pow':
+                    if b != int(b) or abs(b) > 64:
+                        flag[0] = False
+                        return
+                    x = F(a) ** int(b)
+                else:
+                    return
+            except ZeroDivisionError:
+                return
+            if F(r) != x:
+                flag[0] = False
+
+        def go(e):
+            k = e[0]
+            if k in ('num', 'text', 'bool', 'err', 'ref'):
+                return self.ref(e, env)
+            if k == 'neg':
+                return self.fixup(self.EMPTY, 'USub', go(e[1]))
+            if k == 'pct':
+                a = go(e[1])
+                r = self.fixup(a, 'Div', 100)
+                chk('Div', a, 100, r)
+                return r
+            if k == 'bin':
+                a, b = go(e[2]), go(e[3])
+                r = self.fixup(a, OPNAME[e[1]], b)
+                chk(OPNAME[e[1]], a, b, r)
+                return r
+            if k == 'call':
+                f = self.ns[self.xf.FunctionNode.func_map.get(e[1].lower(), e[1].lower())]
+                return f(*[None if a is None else go(a) for a in e[2]])
+            raise ValueError(e)
+        try:
+            go(e)
+        except Exception:          # noqa: BLE001
+            pass
+        return flag[0]
+
+    def lib_call(self, name, args):
+        """the implementation's library function `name` (python name) at the model's argument values, as a wire
+        result (0 value) | (1 exception code)"""
+        def py(v):
+            if isinstance(v, tuple) and len(v) == 2 and v[0] == 'float':
+                return float(v[1])
+            if isinstance(v, tuple):
+                return tuple(py(x) for x in v)
+            return v
+        codes = {n: c for c, n in EXN_NAMES.items()}
+        try:
+            r = self.ns[name](*[py(a) for a in args])
+        except Exception as exc:       # noqa: BLE001
+            return [1, codes.get(type(exc).__name__, 98)]
+        try:
+            return [0, enc_val(r)]
+        except Unencodable:
+            return [1, 98]
+
     def ref_value(self, e, env):
         try:
             v = self.ref(e, env)
@@ -397,6 +519,94 @@ def py_dump(src):
 
 def txt(cs):
     return ''.join(chr(c) for c in cs)
+
+
+# ------------------------------------------------------------------ evaluation correspondence (C02_eval)
+def close_num(a, b):
+    """two canonical values equal up to float rounding"""
+    if isinstance(a, tuple) and isinstance(b, tuple) and a[:1] == ('float',) and b[:1] == ('float',) \
+            and isinstance(a[1], fractions.Fraction) and isinstance(b[1], fractions.Fraction):
+        return abs(a[1] - b[1]) <= fractions.Fraction(1, 10 ** 9) * max(1, abs(a[1]), abs(b[1]))
+    return False
+
+
+def model_eval_stream(ctx, impl, evals):
+    """evals: dicts (e, t, text, env, got, want, clause).  Runs the model's pyeval / xleval on every pair."""
+    n = len(evals)
+    cst_sx = [enc_cst(ev['t']) for ev in evals]
+    cells_sx = [[[[ord(c) for c in a], enc_val(v)] for a, v in sorted(ev['env'].items())] for ev in evals]
+    tables = [dict() for _ in range(n)]
+    answers = [None] * n
+    pending = list(range(n))
+    rounds = 0
+    while pending and rounds < 200:
+        rounds += 1
+        res = ctx.model.batch([('eval', [cst_sx[i], cells_sx[i], list(tables[i].values())]) for i in pending])
+        nxt = []
+        for i, a in zip(pending, res):
+            if a[0] == 4:
+                key = repr(a[1:3])
+                if key in tables[i]:
+                    answers[i] = ('stuck', a)
+                    continue
+                name = txt(a[1])
+                if name not in impl.ns:
+                    answers[i] = ('stuck', a)
+                    continue
+                tables[i][key] = [a[1], a[2], impl.lib_call(name, [dec_val(x) for x in a[2]])]
+                ctx.histogram['eval-model:library-call-asked'] = ctx.histogram.get('eval-model:library-call-asked', 0) + 1
+                nxt.append(i)
+            else:
+                answers[i] = a
+        pending = nxt
+    ctx.extra['eval_model_rounds'] = rounds
+
+    def bump(k):
+        ctx.histogram[k] = ctx.histogram.get(k, 0) + 1
+
+    for ev, a in zip(evals, answers):
+        case = dict(call='eval-model', args=[ev['text'], ev['env']], clause=ev['clause'])
+        if a is None or a[0] == 'stuck' or a[0] not in (0, 1):
+            ctx.divergence(case, ev['got'], a, 'Extract/C02.v eval: the library-call protocol did not terminate')
+            continue
+        if a[0] == 1:
+            ctx.divergence(case, ev['got'], a, 'Model/Syntax.v parse (flat c) for an evaluated formula')
+            continue
+        py, xl, in_fragment = dec_res(a[1]), dec_res(a[2]), bool(a[3])
+        ctx.count(('eval-model', ev['text'], tuple(sorted((k, repr(v)) for k, v in ev['env'].items()))),
+                  kind='eval-model:' + ('fragment' if in_fragment else 'outside-fragment'))
+        if ev['clause'] != 'grouping':
+            bump('eval-model:known-finding-clause-skipped')
+            continue
+        if in_fragment and a[1] != a[2]:
+            ctx.divergence(case, xl, py, 'model: pyeval E (emit e) = xleval E e on the fragment (theorem C02_eval)')
+        exact = impl.ref_exact(ev['e'], ev['env'])
+        for which, m, i, rel in (
+                ('py', py, ev['got'], 'Model/FormulaEval.v py_value = ExcelFormula.build_eval_context()(ExcelFormula(text))'),
+                ('xl', xl, ev['want'], 'Model/FormulaEval.v xl_value = reference evaluator (fixup per node of the intended tree)')):
+            if m[0] == 'raise' and m[1] in ('Unmodelled', 'OutOfFuel'):
+                bump(f'eval-model:{which}-unmodelled')
+                continue
+            if m[0] == 'raise':
+                if i[0] != 'raise':
+                    ctx.divergence(case, i, m, rel)
+                else:
+                    bump(f'eval-model:{which}-both-raise')
+                    if len(ctx.extra.setdefault('eval_model_raise_samples', [])) < 5:
+                        ctx.extra['eval_model_raise_samples'].append([ev['text'], repr(ev['env']), m[1], i[1]])
+                continue
+            try:
+                iv = ('ok', canon(i[1])) if i[0] == 'ok' else i
+            except Exception:      # noqa: BLE001
+                iv = i
+            if iv[0] == 'ok' and same(m[1], iv[1]):
+                bump(f'eval-model:{which}-equal')
+            elif not exact and iv[0] == 'ok' and close_num(m[1], iv[1]):
+                bump(f'eval-model:{which}-equal-up-to-float-rounding')
+            elif not exact and iv[0] == 'ok':
+                bump(f'eval-model:{which}-inexact-arithmetic-skipped')
+            else:
+                ctx.divergence(case, iv, m, rel)
 
 
 # ------------------------------------------------------------------ the run
@@ -563,8 +773,61 @@ def run(ctx):
             ctx.violation(dict(call='eval', args=['=' + s, {}], clause=clause),
                           "number literal does not denote its value", impl=v, expected=int(s))
 
+    # decimals and exponents (theorem C02_number): Python's reading of the text (py_number) against CPython, Excel's
+    # reading (xl_numval) against decimal.Decimal, and the property on the implementation
+    decs = list(NUMS) + ['12.5', '.25', '2.', '1E+3', '2.5E-1', '007.5', '007E1', '0.0', '00.5', '1e0', '5E-3', '1.e2',
+                         '.5e1', '0E0', '1E300', '1E-300', '1E', '1.2.3', '.', 'E5', '1E+', '.E1', '1E1.5', '007', '00',
+                         '0', '123456789.123456789', '0.1', '0.30000000000000004', '1e-05', '9007199254740993']
+    for _ in range(ctx.n(400, 4000)):
+        ip = ''.join(rng.choice('0123456789') for _ in range(rng.randrange(0, 5)))
+        fp = ''.join(rng.choice('0123456789') for _ in range(rng.randrange(0, 5)))
+        t = ip + (('.' + fp) if rng.random() < 0.7 else '')
+        if rng.random() < 0.4:
+            # a signed exponent only after a normalised mantissa (see _kp_exponent_sign)
+            normalised = len(ip) == 1 and ip != '0' and (t == ip or fp)
+            t += rng.choice('eE') + rng.choice(['', '+', '-'] if normalised else ['']) + \
+                str(rng.randrange(0, rng.choice([3, 20, 300])))
+        if rng.random() < 0.03:
+            t += rng.choice(['.', 'E', '5.'])
+        decs.append(t)
+    exp_sign = ['12.5E-1', '0.5E+1', '.15e-19', '750.e+2', '10E+2']
+    if any(f.get('id') == 'C02-number-exponent-sign' and f.get('kind') == 'known' for f in ctx.findings):
+        decs += exp_sign
+    ans = ctx.model.batch([('number', [[ord(c) for c in t]]) for t in decs]) if ctx.model else [None] * len(decs)
+    for t, a in zip(decs, ans):
+        ctx.count(('num', t), kind='literal:number-decimal')
+        try:
+            v = ast.literal_eval(t)
+            py = ('ok', canon(v)) if type(v) in (int, float) else ('none',)
+        except (SyntaxError, ValueError):
+            py = ('none',)
+        try:
+            xl = ('ok', fractions.Fraction(decimal.Decimal(t))) if t and t[0] in '0123456789.' else ('none',)
+        except (decimal.InvalidOperation, ValueError):
+            xl = ('none',)
+        if a is not None:
+            m_py = ('ok', dec_val(a[0][1])) if a[0][0] == 0 else ('none',)
+            m_xl = ('ok', dec_val(a[1][1])) if a[1][0] == 0 else ('none',)
+            zeros_ok = bool(a[2])
+            if not (m_py == py or (m_py[0] == py[0] == 'ok' and same(m_py[1], py[1]))):
+                ctx.divergence(dict(call='literal', args=[t]), py, m_py, 'Model/FormulaEval.v py_number = CPython number literal')
+            want_xl = xl if xl[0] == 'none' else ('ok', int(xl[1]) if t.isdigit() else ('float', xl[1]))
+            if m_xl != want_xl:
+                ctx.divergence(dict(call='literal', args=[t]), want_xl, m_xl,
+                               'Model/FormulaEval.v xl_numval = the rational the text writes (decimal.Decimal)')
+            if xl[0] == 'ok' and zeros_ok and m_py != m_xl:
+                ctx.divergence(dict(call='literal', args=[t]), m_xl, m_py, 'model: py_number = xl_numval (theorem C02_number)')
+        if xl[0] == 'ok':
+            want = int(t) if t.isdigit() else float(t)
+            v = impl.evaluate('=' + t, {})
+            if not (v[0] == 'ok' and type(v[1]) is type(want) and v[1] == want):
+                ctx.violation(dict(call='eval', args=['=' + t, {}],
+                                   clause='number-exponent-sign' if t in exp_sign else clause_of(('num', t))),
+                              "number literal does not denote its value", impl=v, expected=want)
+
     # ---------------------------------------------------------------- oracle: grouping and literals
     seen = set()
+    evals = []
     for e, t, text, evalable in cases:
         if not evalable:
             continue
@@ -578,8 +841,13 @@ def run(ctx):
             want = impl.ref_value(e, env)
             got = impl.evaluate(text, env)
             ctx.count(key, kind='eval:' + e[0], sample=dict(formula=text, env=env, impl=got, expected=want))
+            evals.append(dict(e=e, t=t, text=text, env=env, got=got, want=want, clause=clause))
             if not same_value(got, want):
                 ctx.violation(dict(call='eval', args=[text, env], clause=clause),
                               "compiled formula differs from the value of Excel's parse "
                               "(implementation's own operators applied per node of the intended tree)",
                               impl=got, expected=want)
+
+    # ---------------------------------------------------------------- evaluation correspondence (theorem C02_eval)
+    if ctx.model:
+        model_eval_stream(ctx, impl, evals)
